@@ -4,56 +4,83 @@ import core
 TRUSTED = [
     "Coq 8.16.1 kernel incl. vm_compute (case evaluation, refutation witness); no native_compute",
     "primitive Uint63 literals only in generated case files (transport), never in models/theorems",
-    "tools/extract (go/ast): redirect-sink and pending-destination tables",
+    "tools/extract (go/ast): redirect-sink, pending-destination and destination-read tables; harvested cookie / parameter names",
     "model of net/http.Redirect + path.Clean + hexEscapeNonASCII (Go 1.24) validated by the correspondence on every run",
     "WHATWG same-origin rule as encoded in Model.Dest.same_origin and harness verifSameOrigin",
 ]
 
+# (prefix of the definitions printed by the case file, label, idx file, suffix of the model-oracle key)
+LISTS = [
+    ("c17", "location(model)=Location(impl)", "CasesC17.idx", ""),
+    ("c17_flow", "login prompt of a protected page -> provider round trip: prompt kind and callback Location = model (force_redirect x request-target forms)", "CasesC17flow.idx", ":prompt-flow"),
+    ("c17_logout", "logout Location = model logout_location", "CasesC17logout.idx", ":logout"),
+    ("c17_chan", "request channels other than the form/query value (cookies, headers, JSON body, multipart field, path suffix) do not move the Location: = model req_location / req_federated_location", "CasesC17chan.idx", ":channel"),
+]
+
+
+def idx_lines(ctx, idxfile):
+    p = os.path.join(ctx.work, idxfile)
+    return open(p).read().split("\n") if os.path.exists(p) else []
+
+
 def run(ctx):
+    # a broken correspondence comes with its failing input from the first run (model oracle below); what is left for
+    # the escalated search (DESIGN 2.6: thorough tier + two more seeds) is bounded to five minutes
+    os.environ.setdefault("VERIF_ESCALATION_S", "300")
     gen = ctx.extract()
     ctx.audit("Props.C17", ["c17_location", "c17_filter", "c17_old_filter_refuted", "c17_federated", "c17_prompt_flow",
-                            "c17_unfiltered_prompt_refuted", "c17_logout", "c17_logout_ctl_refuted"])
+                            "c17_unfiltered_prompt_refuted", "c17_logout", "c17_logout_ctl_refuted",
+                            "c17_other_channels_ignored", "c17_channels_same_origin", "c17_no_form_value_profile",
+                            "c17_cookie_fallback_refuted"])
     if gen:
         compile_gen(ctx, gen)
-        ctx.gen_obligations("Obl_C17.v", ["c17_sinks", "c17_pending", "c17_sinks_nonempty"])
+        ctx.gen_obligations("Obl_C17.v", ["c17_sinks", "c17_pending", "c17_sinks_nonempty", "c17_filter_reads", "c17_filter_reads_nonempty"])
     ok, result, log = ctx.go_harness("cmd/keymasterd", "TestVerif_C17",
                                      ["kmd/common.go", "kmd/c17.go", os.path.join(ctx.work, "gen", "mux_gen.go")])
     if result is not None:
         res = ctx.eval_cases(os.path.join(ctx.work, "CasesC17.v"), "c17_location_vs_http.Redirect")
         if res is not None:
-            mism = res.get("c17_mismatches")
             n = res.get("c17_ncases")
-            if mism == "[]":
-                ctx.obligations.append(("corr:location(model)=Location(impl) on %s cases" % n, True, "no mismatch"))
-            else:
-                ctx.obligations.append(("corr:location(model)=Location(impl)", False, "mismatch indices %s" % (mism or "?")[:200]))
-                first = None
-                m = re.search(r"\[(\d+)", mism or "")
-                if m:
-                    idx = int(m.group(1))
-                    for line in open(os.path.join(ctx.work, "CasesC17.idx")):
-                        if line.startswith("%d\t" % idx):
-                            first = line.strip().split("\t")
-                ctx.broken.append(("correspondence", "c17_location_vs_http.Redirect",
-                                   {"first_mismatch": first, "indices": (mism or "")[:500]}))
-            for name, label, idxfile in (("c17_flow_mismatches", "login prompt of a protected page -> provider round trip: prompt kind and callback Location = model (force_redirect x request-target forms)", "CasesC17flow.idx"),
-                                         ("c17_page_mismatches", "hidden login_destination of the login page served for an unauthenticated GET = ensureHTMLSafeLoginDestination(page_destination)", "CasesC17page.idx"),
-                                         ("c17_logout_mismatches", "logout Location = model logout_location", "CasesC17logout.idx")):
-                mm = res.get(name)
-                if mm == "[]":
-                    ctx.obligations.append(("corr:" + label, True, "no mismatch"))
+            for prefix, label, idxfile, shape in LISTS:
+                mism = res.get(prefix + "_mismatches")
+                count = res.get(prefix + "_nmismatches", "?")
+                lines = idx_lines(ctx, idxfile)
+                if mism == "[]":
+                    ctx.obligations.append(("corr:%s%s" % (label, " on %s cases" % n if prefix == "c17" else ""), True, "no mismatch"))
                 else:
-                    ctx.obligations.append(("corr:" + label, False, "mismatch indices %s" % (mm or "missing")[:200]))
+                    ctx.obligations.append(("corr:" + label, False, "%s mismatching cases, first indices %s" % (count, (mism or "missing")[:200])))
                     first = None
-                    m2 = re.search(r"\[(\d+)", mm or "")
-                    if m2 and os.path.exists(os.path.join(ctx.work, idxfile)):
-                        for line in open(os.path.join(ctx.work, idxfile)):
-                            if line.startswith("%d\t" % int(m2.group(1))):
-                                first = line.strip().split("\t")
-                    ctx.broken.append(("correspondence", name, {"first_mismatch": first, "indices": (mm or "")[:500]}))
+                    m = re.search(r"\[(\d+)", mism or "")
+                    if m and int(m.group(1)) < len(lines):
+                        first = lines[int(m.group(1))].split("\t")
+                    ctx.broken.append(("correspondence", prefix + "_mismatches" if prefix != "c17" else "c17_location_vs_http.Redirect",
+                                       {"first_mismatch": first, "count": count, "indices": (mism or "")[:500]}))
+                # the mismatching cases on which the OBSERVED Location is not same-origin (evaluated in Coq): each is a
+                # concrete input on which the implementation leaves the origin while the proved model does not
+                viol = res.get(prefix + "_offorigin")
+                if viol and viol != "[]":
+                    for m in re.findall(r"\d+", viol)[:20]:
+                        i = int(m)
+                        line = lines[i] if i < len(lines) else "case %d" % i
+                        ctx.hits.append({"key": "C17:model-oracle:offorigin" + shape, "oracle": "model-oracle: " + prefix + "_offorigin",
+                                         "what": "the observed Location is not same-origin as evaluated in Coq (Model.Dest.same_origin) while the model's Location for the same input is: " + line[:300],
+                                         "case": line})
+            mm = res.get("c17_page_mismatches")
+            label = "hidden login_destination of the login page served for an unauthenticated GET = ensureHTMLSafeLoginDestination(page_destination)"
+            if mm == "[]":
+                ctx.obligations.append(("corr:" + label, True, "no mismatch"))
+            else:
+                ctx.obligations.append(("corr:" + label, False, "mismatch indices %s" % (mm or "missing")[:200]))
+                first = None
+                m2 = re.search(r"\[(\d+)", mm or "")
+                lines = idx_lines(ctx, "CasesC17page.idx")
+                if m2 and int(m2.group(1)) < len(lines):
+                    first = lines[int(m2.group(1))].split("\t")
+                ctx.broken.append(("correspondence", "c17_page_mismatches", {"first_mismatch": first, "indices": (mm or "")[:500]}))
     ctx.assumptions = ["browser behaviour is represented by the WHATWG rules in same_origin",
                        "url.Parse success/failure enters the model as the parse_fails input computed by the real parser",
                        "r.URL.String() of the request (prompt flow) is an input computed by net/http's own request-line parser",
+                       "whether a multipart field is part of r.Form (the handler parsed the form before FormValue or not) is net/http's decision: both outcomes are admitted by the channel correspondence",
                        "c17_logout: the user name of a session contains no control byte other than tab/CR/LF (whatever the password backend / identity provider admitted); c17_logout_ctl_refuted shows the hypothesis is needed"]
     return ctx.finish("bin/build-coq && coqc Audit/Obl/Cases files (see lib/core.py); go test -overlay TestVerif_C17", TRUSTED)
 
